@@ -163,9 +163,21 @@ def programs(tier):
             for (ka, ta), (kb, tb) in itertools.product(g.E(a), g.E(n - a)):
                 for cn, lines in CONTEXTS_EE:
                     progs.append((ka + kb + cn, [l.replace("{X}", ta).replace("{Y}", tb) for l in lines]))
-    if tier != "quick":
-        # the measuring leaf inside the two-hole contexts as well, via a conditional expression
-        pass
+    # short-circuit / assignment expressions nested as a LATER operand (size 3-4 shapes that the quick
+    # size bound would otherwise miss)
+    extra_e = [
+        ("binop,ifexp,", "({L} + ({L} if {B:g} else {L}))"),
+        ("call-args,ifexp,", "h2({L}, ({L} if {B:g} else {L}))"),
+        ("tuple,ifexp,", "({L}, ({L} if {B:g} else {L}))[1]"),
+        ("binop,walrus,", "({L} + (w := {L}))"),
+        ("binop,walrus,", "(({L} + (w := {L})) + w)"),
+        ("call-args,walrus,", "h2({L}, (w := {L}))"),
+        ("binop,ifexp,and,", "({L} + ({L} if ({B:g} and {B:g}) else 7))"),
+    ]
+    for kinds, t in extra_e:
+        for cn, lines in CONTEXTS_E:
+            progs.append((kinds + cn, [l.replace("{X}", t) for l in lines]))
+    progs.append(("compare,ifexp,if-cond", ["if ({L} < ({L} if {B:g} else {L})):", '    result("then", 1)', "else:", '    result("else", 0)']))
     out = []
     for kinds, lines in progs:
         text, n = _number("\n".join(lines))
